@@ -14,7 +14,7 @@ RULE = (
     'canonical regimens in the float form; RP = the myokit.Protocol form with ONE protocol object per model that gets a '
     'further event scheduled and is passed again), set_outputs (two selections), rename parameter / output, enable/disable sensitivities, '
     'copy-and-continue-on-copy, copy-and-keep, wrap in ReducedMechanisticModel + fix / re-fix / release, simulate. '
-    'Tier 1 is EXHAUSTIVE: every sequence of length <= 3 (quick) / <= 4 (thorough) over the 16-letter alphabet on two '
+    'Tier 1 is EXHAUSTIVE: every sequence of length <= 3 (quick) / <= 4 (thorough) over the 17-letter alphabet on two '
     'fixed generated models (1 and 2 compartments) and the library one-compartment model, observed at the end of the '
     'sequence (all prefixes are sequences themselves). Tier 2: Hypothesis draws sequences of up to 25 operations on '
     'freshly generated models / library models (pk, erlotinib) and observes after every step. Non-trivial: an '
@@ -33,7 +33,7 @@ REQUIRED = ['admin_after_config', 'copy_then_mutate', 'wrapped', 'regimen_then_a
             'protocol_object_reused']
 
 TIMES = np.array([0.0, 0.4, 0.7, 1.3, 2.6, 3.9])
-ALPHABET = ['A0', 'A1', 'A2', 'R0', 'R1', 'RP', 'O0', 'O1', 'NP', 'NO', 'S1', 'S0', 'C', 'K', 'F', 'X']
+ALPHABET = ['A0', 'A1', 'A2', 'R0', 'R1', 'RP', 'O0', 'O1', 'NP', 'NO', 'S1', 'S0', 'C', 'K', 'F', 'X', 'G']
 REGIMENS = {'R0': dict(dose=2.0, start=0.5, duration=0.2, period=1.0, num=3),
             'R1': dict(dose=1.0, start=0.0, duration=0.01, period=None, num=None)}
 
@@ -94,7 +94,7 @@ def classify(spec):
             labs.append('regimen_then_admin')
         if o in ('NP', 'NO') and any(p.startswith('A') for p in ops[i + 1:]):
             labs.append('rename_then_admin')
-    if 'F' in ops or 'X' in ops:
+    if 'F' in ops or 'X' in ops or 'G' in ops:
         labs.append('wrapped')
     if ops.count('RP') >= 2:
         labs.append('protocol_object_reused')
@@ -366,6 +366,8 @@ def check(case):
                 net.oren = {q: v for q, v in net.oren.items() if q in sel}
             elif op == 'NP':
                 qn = [q for q in desc.params(net.admin) if not (net.fixed and q in net.fixed)]
+                if not qn:
+                    continue          # no free parameter to rename
                 q = qn[0]
                 net.n_ren += 1
                 new = 'P%d' % net.n_ren
@@ -406,6 +408,21 @@ def check(case):
                     q = sorted(net.fixed)[0]
                     cur.fix_parameters({net.pren.get(q, q): None})
                     del net.fixed[q]
+            elif op == 'G':
+                # every free parameter is fixed in one call (a model without free parameters); if nothing is free any
+                # more, everything is released
+                qn = desc.params(net.admin)
+                if not wrapped:
+                    cur = chi.ReducedMechanisticModel(cur)
+                    net.fixed = {}
+                free = [q for q in qn if q not in net.fixed]
+                if free:
+                    vals = {q: gen.r6(value_of(q) * 1.1) for q in free}
+                    cur.fix_parameters({net.pren.get(q, q): v for q, v in vals.items()})
+                    net.fixed.update(vals)
+                else:
+                    cur.fix_parameters({net.pren.get(q, q): None for q in net.fixed})
+                    net.fixed = {}
             elif op == 'X':
                 # one fix_parameters call that releases a fixed parameter and fixes a free one (the number of free
                 # parameters stays the same); a plain fix if nothing is fixed yet
